@@ -584,6 +584,9 @@ def sx_call(f, *args, **kw):
             return f(*[a.__index__() if isinstance(a, SymInt) else a for a in args], **kw)
     if f in _PASS:
         return f(*args, **kw)
+    oc = getattr(f, "__objclass__", None)
+    if oc is not None and isinstance(oc, type) and issubclass(oc, BaseException) and getattr(f, "__name__", "") == "__init__":
+        return f(*args, **kw)               # exception constructors only store their arguments
     if callable(f) and not isinstance(f, (types.BuiltinFunctionType, types.BuiltinMethodType, type)) \
             and type(f).__module__ != "builtins":
         return f(*args, **kw)               # python-level callable object (partial, Deferred methods...)
